@@ -9,8 +9,8 @@ from .. import rfa_common as R
 from ..core import fmt, frac, floats, pw_field, err_kind
 
 ID = "C06"
-MODULES = ["TWV.Properties.RfaImp", "TWV.Properties.C06", "TWV.Tie.Funfit"]
-TRANSLATORS = ["t1_funfit"]
+MODULES = ["TWV.Properties.RfaImp", "TWV.Tie.RfaLoops", "TWV.Properties.C06", "TWV.Tie.Funfit"]
+TRANSLATORS = ["t4_rfaloops", "t1_funfit"]
 TIE = ("translator T1 regenerates the five shape functions from funfit.py's AST; TWV.Tie.Funfit proves them equal to the hand "
        "model; plus differential correspondence on funfit.* and on the four window strategies")
 RULE = ("(a) the five funfit functions at lattice arguments x0 < x < x1 (and at both end points) with exponents 1..3 computed by "
